@@ -543,6 +543,23 @@ def search(ctx):
                         if repr(a_np) != repr(a_py):
                             ctx.violation("C14:numpy-scalar-left", "%s with c = np.float64(2.5) builds %r, with c = 2.5 %r" % (nm, a_np, a_py), dict(info, expr=nm))
                             break
+                # EVERY NumPy scalar type (a count read from a uint8 image, an index, a single-precision value) on EITHER side of
+                # every operator: the derived prior's guess is the operation applied to the base prior's guess, as with the Python number
+                for st in (np.uint8, np.uint16, np.uint32, np.uint64, np.int8, np.int16, np.int32, np.int64, np.float16, np.float32, np.float64):
+                    cval = st(3)
+                    for nm, f in (("p+c", lambda v: p0 + v), ("p-c", lambda v: p0 - v), ("p*c", lambda v: p0 * v), ("p/c", lambda v: p0 / v),
+                                  ("c+p", lambda v: v + p0), ("c-p", lambda v: v - p0), ("c*p", lambda v: v * p0), ("c/p", lambda v: v / p0)):
+                        ctx.tried("numpy-scalar-types", (st.__name__, nm))
+                        a_np = impl_call(lambda: f(cval))
+                        a_py = f(3)
+                        if isinstance(a_np, tuple) and len(a_np) == 2 and a_np[0] == "err":
+                            ctx.violation("C14:numpy-scalar-types:raises", "%s with c = %s(3) raised %s" % (nm, st.__name__, a_np[1]), dict(info, expr=nm, scalar_type=st.__name__))
+                            break
+                        # the number 3 is exact in every type; a quotient carries the precision of the scalar's own type
+                        if not (abs(float(a_np.guess) - float(a_py.guess)) <= (2e-3 if st is np.float16 else 1e-6) * max(1.0, abs(float(a_py.guess)))):
+                            ctx.violation("C14:numpy-scalar-types", "%s with c = %s(3): the derived prior's guess is %r, the operation applied to the base prior's guess gives %r" % (
+                                nm, st.__name__, float(a_np.guess), float(a_py.guess)), dict(info, expr=nm, scalar_type=st.__name__))
+                            break
                 for bad in (lambda: p0 * 0, lambda: 0 * p0, lambda: p0 + "a", lambda: p0 * "a", lambda: p0 * [1, 2]):
                     r = impl_call(bad)
                     if not (isinstance(r, tuple) and r[1] == "TypeError"):
